@@ -22,4 +22,4 @@ def selftest(ctx):
                     c["rsb"][3] ^= 1
                     lines[i] = json.dumps(d)
                     return (i + 1, "TxnOwnReply")
-    return txncommon.selftest(ctx, mutate)
+    return txncommon.selftest(ctx, mutate) and txncommon.selftest_traces(ctx)
